@@ -15,6 +15,7 @@ import (
 	"github.com/elnosh/gonuts/cashu"
 	"github.com/elnosh/gonuts/cashu/nuts/nut04"
 	"github.com/elnosh/gonuts/cashu/nuts/nut05"
+	"github.com/elnosh/gonuts/cashu/nuts/nut12"
 	"github.com/elnosh/gonuts/cashu/nuts/nut20"
 
 	"verif/harness/dbwrap"
@@ -48,9 +49,17 @@ type schedX struct {
 	outcomeBits []string
 	mintWho     []string
 	scn         string
+	outsOf      map[string][]world.Out
+	sigs        []sigRec // signatures handed out by the concurrent requests, with the output they answer
 	kindsAll    []string
 	freeRun     bool
 	mu          sync.Mutex
+}
+
+type sigRec struct {
+	who string
+	out world.Out
+	sig cashu.BlindedSignature
 }
 
 type swapRes struct {
@@ -110,9 +119,14 @@ func (x *schedX) thSwap(name string, ins []int, mut string) {
 		outs = x.sharedOuts
 	}
 	x.s.Go(name, func() {
-		_, err := w.M.M.Swap(proofs, world.Msgs(outs))
+		sigs, err := w.M.M.Swap(proofs, world.Msgs(outs))
 		x.mu.Lock()
 		defer x.mu.Unlock()
+		for i := range sigs {
+			if i < len(outs) {
+				x.sigs = append(x.sigs, sigRec{name, outs[i], sigs[i]})
+			}
+		}
 		x.note("%s swap%v -> %s", name, ins, errc(err))
 		x.swapRes = append(x.swapRes, swapRes{name, ins, err == nil})
 		if err == nil {
@@ -141,13 +155,16 @@ func (x *schedX) thMelt(name string, mi int, ins []int) {
 		x.mu.Lock()
 		defer x.mu.Unlock()
 		// the answer the backend gave to THIS request's payment attempt (several requests may try the same quote)
+		paidOverLN := false
 		for _, c := range w.LN.Calls {
 			if c.G == me && (c.Method == "SendPayment" || c.Method == "PayPartialAmount") {
+				paidOverLN = true
 				for _, n := range ins {
 					x.meltPay[n] = append(x.meltPay[n], payAns{c.Answer, mi})
 				}
 			}
 		}
+		_ = paidOverLN
 		x.note("%s melt(mq%d,%v) -> %s%s", name, mi, ins, errc(err), st)
 		x.meltErr[mi] = errc(err)
 		x.outcomeBits = append(x.outcomeBits, name+"="+errc(err)+st)
@@ -202,6 +219,10 @@ func (x *schedX) thMint(name string, qi int, variant string) {
 	if x.sharedOuts != nil {
 		outs = x.sharedOuts
 	}
+	if x.outsOf == nil {
+		x.outsOf = map[string][]world.Out{}
+	}
+	x.outsOf[name] = outs
 	req := nut04.PostMintBolt11Request{Quote: q.Q.Id, Outputs: world.Msgs(outs)}
 	if q.Key != nil {
 		sg, _ := nut20.SignMintQuote(q.Key, q.Q.Id, req.Outputs)
@@ -216,6 +237,13 @@ func (x *schedX) doMint(name string, qi int, req nut04.PostMintBolt11Request) {
 	sigs, err := w.M.M.MintTokens(req)
 	x.mu.Lock()
 	defer x.mu.Unlock()
+	for i := range sigs {
+		for _, o := range x.outsOf[name] {
+			if o.Msg.B_ == req.Outputs[i].B_ {
+				x.sigs = append(x.sigs, sigRec{name, o, sigs[i]})
+			}
+		}
+	}
 	x.note("%s mint(q%d) -> %s", name, qi, errc(err))
 	if err == nil {
 		x.mintOK[qi]++
@@ -433,6 +461,18 @@ func oracleC01(used []int) func(x *schedX) {
 				if status == "Succeeded" || status == "Pending" {
 					acc++
 					kinds += "melt(" + status + ")+"
+				}
+			}
+			// a melt of the mint's own invoice is settled without any payment: it consumed its inputs if the mint's records
+			// say the melt quote is PAID (whatever the request was answered)
+			if t, terr := w.ReadTables(); terr == nil {
+				seen := map[int]bool{}
+				for _, mi := range x.meltOf[n] {
+					if !seen[mi] && w.Melts[mi].Internal >= 0 && t.MeltQ[w.Melts[mi].Q.Id][0] == "PAID" {
+						seen[mi] = true
+						acc++
+						kinds += "melt(internal)+"
+					}
 				}
 			}
 			// final state through the API (backend answers truthfully)
@@ -673,6 +713,60 @@ func init() {
 		x.thMelt("B", 0, []int{1})
 		x.thSwap("C", []int{1}, "")
 	}, oracle: oracleC01([]int{1})})
+	// K1 / K2: a request that gets signatures overlapping a run-time keyset rotation
+	oracleKeys := func(x *schedX) {
+		w := x.w
+		ksets := w.M.M.ListKeysets()
+		active := 0
+		for _, k := range ksets.Keysets {
+			if k.Active {
+				active++
+			}
+		}
+		if active != 1 {
+			x.viol("C09", x.scn+"/active-keysets", "%d active keysets after the rotation", active)
+		}
+		for _, r := range x.sigs {
+			x.outcomeBits = append(x.outcomeBits, r.who+"-signed-on-"+map[bool]string{true: "asked", false: "other"}[r.sig.Id == r.out.Msg.Id])
+			if r.sig.Id != r.out.Msg.Id {
+				x.viol("C09,C10", x.scn+"/signature-names-another-keyset", "%s: output asked for keyset %s, signature says %s", r.who, r.out.Msg.Id, r.sig.Id)
+				continue
+			}
+			keys := w.M.Keys(r.sig.Id)
+			if keys == nil || keys[r.sig.Amount] == nil {
+				x.viol("C09,C10", x.scn+"/signature-unknown-key", "%s: no published key for %s / %d", r.who, r.sig.Id, r.sig.Amount)
+				continue
+			}
+			if r.sig.DLEQ == nil || !nut12.VerifyBlindSignatureDLEQ(*r.sig.DLEQ, keys[r.sig.Amount], r.out.Msg.B_, r.sig.C_) {
+				x.viol("C09,C10", x.scn+"/signature-not-by-the-published-key", "%s: the signature labelled %s / %d does not verify under the key that keyset publishes: %s", r.who, r.sig.Id, r.sig.Amount, strings.Join(x.obs, "; "))
+			}
+		}
+	}
+	rotate := func(x *schedX) {
+		x.s.Go("R", func() {
+			_, err := x.w.M.M.RotateKeyset(0)
+			x.mu.Lock()
+			defer x.mu.Unlock()
+			x.note("R rotate -> %s", errc(err))
+			x.outcomeBits = append(x.outcomeBits, "R="+errc(err))
+		})
+	}
+	addScn(&schedScn{name: "K1-swap-rotate", prop: "C09", setup: func(x *schedX) {
+		must(x.w, "fund|8,8")
+		x.thSwap("A", []int{0}, "")
+		rotate(x)
+	}, oracle: oracleKeys})
+	addScn(&schedScn{name: "K2-mint-rotate", prop: "C09", setup: func(x *schedX) {
+		must(x.w, "fund|8", "mq|8", "settle|1", "pollq|1")
+		x.thMint("A", 1, "")
+		rotate(x)
+	}, oracle: oracleKeys})
+	addScn(&schedScn{name: "S14-internalmelt-swap", prop: "C01", setup: func(x *schedX) {
+		// a melt of the mint's own invoice (settled internally, no Lightning payment) racing a swap of its input
+		must(x.w, "fund|8,8", "mq|4", "meltqi|1")
+		x.thMelt("A", 0, []int{0})
+		x.thSwap("B", []int{0}, "")
+	}, tail: func(x *schedX) { x.w.Exec("mint|1") }, oracle: oracleC01([]int{0})})
 	addScn(&schedScn{name: "S13-failedmelt-poll-poll-remelt-swap", prop: "C01", setup: func(x *schedX) {
 		// as S11 with TWO polls: one of them may act on what it read before the other released the quote and a new melt
 		// (other input, payment in flight) was accepted
